@@ -60,7 +60,7 @@ InContract(e) ==
           HasS(e) /\ e.r \in 1..MaxRow /\ e.c \in 1..MaxCol
     [] e.a = "StyleCell" -> HasS(e) /\ e.r \in 1..MaxRow /\ e.c \in 1..MaxCol         \* a blank style carrier
                             /\ ~\E x \in wb.sheets[e.s].cells : x.r = e.r /\ x.c = e.c
-    [] e.a \in {"Merge", "Name", "Table", "Validation", "CondFmt", "Protect"} -> HasS(e)
+    [] e.a \in {"Merge", "Name", "Table", "Validation", "CondFmt", "Protect", "AutoFilter", "ColWidth"} -> HasS(e)
     [] e.a \in {"Macro", "ProtectBook"} -> TRUE
     [] OTHER -> FALSE
 CellOfStep(e) == [r |-> e.r, c |-> e.c, k |-> IF e.k = "rich" THEN "text" ELSE e.k, v |-> e.v, f |-> e.f, sm |-> "", sty |-> e.sty]
@@ -84,7 +84,7 @@ Expected(e) ==
     [] e.a = "Protect"     -> Post_Protect(wb, e.s)
     [] e.a = "RowHeight"   -> Post_RowDim(wb, e.s, e.r)
     [] e.a = "Macro"       -> Post_Macro(wb, e.on)
-    [] e.a = "ProtectBook" -> wb
+    [] e.a \in {"ProtectBook", "AutoFilter", "ColWidth"} -> wb          \* no effect on what C02 compares
 
 (* ---- the package clauses with their known deviations --------------------- *)
 KnownImgExt == {"png", "jpg", "jpeg", "tiff", "emf"}       \* the writer's table of Default content types for media
@@ -123,11 +123,11 @@ ClauseHits(offs) == {ClauseKF[c] : c \in {x \in DOMAIN ClauseKF : offs[x] # {}}}
 PosOf(S) == {<<x.r, x.c>> : x \in S}
 IsFormula(m) == m.f # "" \/ m.sm # ""
 ErrVar(M)   == IF KFOn("C02-KF4")
-               THEN {[NormCell(m) EXCEPT !.v = "#VALUE!"] : m \in {x \in M : x.k = "err" /\ ~IsFormula(x) /\ x.v # "#VALUE!"}} ELSE {}
+               THEN Nz({[NormCell(m) EXCEPT !.v = "#VALUE!"] : m \in {x \in M : x.k = "err" /\ ~IsFormula(x) /\ x.v # "#VALUE!"}}) ELSE {}
 FtypeVar(M) == IF KFOn("C02-KF5")
-               THEN {[NormCell(m) EXCEPT !.k = "text", !.v = m.d] : m \in {x \in M : IsFormula(x) /\ x.k \in {"num", "bool", "err"}}} ELSE {}
+               THEN Nz({[NormCell(m) EXCEPT !.k = "text", !.v = m.d] : m \in {x \in M : IsFormula(x) /\ x.k \in {"num", "bool", "err"}}}) ELSE {}
 IllVar(M, E) == IF KFOn("C02-KF8") /\ E.facts.illegal # <<>>
-                THEN {[NormCell(m) EXCEPT !.k = "bad", !.v = ""] : m \in {x \in M : x.k = "text" /\ ~IsFormula(x)}} ELSE {}
+                THEN Nz({[NormCell(m) EXCEPT !.k = "bad", !.v = ""] : m \in {x \in M : x.k = "text" /\ ~IsFormula(x)}}) ELSE {}
 (* text facts (computed outside TLC, which cannot look inside a string): t.nl = t.v after XML line-end
    normalisation, t.xs = t.v after ST_Xstring unescaping, t.xn = both *)
 FactCell(t, v) == [r |-> t.r, c |-> t.c, k |-> "text", v |-> v, f |-> t.f, sm |-> t.sm]
@@ -140,9 +140,9 @@ CrXsVar(E, s) == IF KFOn("C02-KF6") /\ KFOn("C02-KF7")
 
 CellProblems(E, s) ==
   LET M  == ToSet(E.model.sheets[s].cells)
-      NM == {NormCell(m) : m \in M}
+      NM == Nz({NormCell(m) : m \in M})
       DL == E.dec.sheets[s].cells
-      D  == ToSet(DL)
+      D  == Nz(ToSet(DL))
       V  == NM \cup ErrVar(M) \cup FtypeVar(M) \cup IllVar(M, E) \cup CrVar(E, s) \cup XsVar(E, s) \cup CrXsVar(E, s)
   IN IF ~FactsBound(E, s, NM) THEN {<<"gen", "text facts do not belong to model cells">>}
      ELSE IF D = NM /\ Len(DL) = Cardinality(D) THEN {}
@@ -153,8 +153,8 @@ CellProblems(E, s) ==
           {<<"cells", s, Cardinality(D \ V), "decoded", d, "model", {m \in NM : m.r = d.r /\ m.c = d.c}>>}
 CellHits(E, s) ==
   LET M  == ToSet(E.model.sheets[s].cells)
-      NM == {NormCell(m) : m \in M}
-      D  == ToSet(E.dec.sheets[s].cells) \ NM
+      NM == Nz({NormCell(m) : m \in M})
+      D  == Nz(ToSet(E.dec.sheets[s].cells) \ NM)
   IN IF D = {} THEN {}
      ELSE (IF D \cap ErrVar(M) # {} THEN {"C02-KF4"} ELSE {}) \cup (IF D \cap FtypeVar(M) # {} THEN {"C02-KF5"} ELSE {})
           \cup (IF D \cap IllVar(M, E) # {} THEN {"C02-KF8"} ELSE {})
